@@ -3,7 +3,7 @@
    scripted terminal (any number of connections, any chunks, delays, silences, closes, refusals); the
    log is the one the correspondence run compares event by event, to the millisecond, with the real
    client's (writes per connection, opens, drops). *)
-From Zvt Require Import Base Length Cp437 Encoding Codec Lookup Sequence SeqLookup Client ClientProps ClientLog.
+From Zvt Require Import Base Length Cp437 Encoding Codec Lookup Sequence SeqLookup Client ClientProps ClientLog ClientWire.
 Open Scope N_scope.
 
 (* after an Err item the very next poll drops the connection before doing anything else ... *)
@@ -64,7 +64,17 @@ Proof.
     + intros e [].
 Qed.
 
+(* what "the registration command" is, down to the wire: for every configuration (password below 10^6, currency below 10^4) the
+   bytes `registration_cmd cfg` — by C09_history_registration_first the first bytes on every connection — are read back by the
+   registration layout as exactly the configured password, the configuration byte 0xDE and the configured currency *)
+Theorem C09_registration_carries_the_configuration : forall cfg, c_password cfg < 10 ^ 6 -> c_currency cfg < 10000 ->
+  registration_cmd cfg <> nil /\
+  forall r, dec_cmd FUEL (cmd_of "zvt::packets::Registration") (registration_cmd cfg ++ r) =
+            Ok (registration_value (c_password cfg) (c_currency cfg), r).
+Proof. exact registration_on_the_wire. Qed.
+
 Print Assumptions C09_after_err_drops_connection.
+Print Assumptions C09_registration_carries_the_configuration.
 Print Assumptions C09_drop_clears_current.
 Print Assumptions C09_history_never_reuses_a_dropped_connection.
 Print Assumptions C09_history_registration_first.
